@@ -224,10 +224,11 @@ def tree_strategy():
 
     def tag(children):
         return st.builds(
-            lambda name, ws, kids: {"k": "tag", "name": name, "ws": ws, "kids": kids},
+            lambda name, ws, kids, born: {"k": "tag", "name": name, "ws": ws, "kids": kids, "born": born},
             names,
             st.booleans(),
             st.lists(st.tuples(hows, st.integers(-3, 8), children).map(list), max_size=5),
+            st.sampled_from([None, None, None, None, "script", "style"]),
         )
 
     leaf = st.one_of(slot, slot, slot, fixed)
@@ -285,7 +286,13 @@ class _Builder:
         ctor_args = []
         for how, idx, obj in ops[:first_inc]:
             ctor_args.append(self.wrap(how, obj))
-        t = h.Tag(r["name"], *ctor_args, _add_ws=r["ws"])
+        if r.get("born"):
+            # constructed under the name of a raw-text element and renamed: what counts is the name at rendering time
+            t = h.Tag(r["born"], *ctor_args, _add_ws=r["ws"])
+            t.name = r["name"]
+            self.hows.add("renamed")
+        else:
+            t = h.Tag(r["name"], *ctor_args, _add_ws=r["ws"])
         for how, idx, obj in ops[first_inc:]:
             self.hows.add(how)
             if how == "append":
@@ -430,7 +437,7 @@ CLAUSES = [
         quick=1200,
         thorough=20000,
         shards_quick=4,
-        required=("how:append", "how:extend", "how:insert", "how:list", "how:tfy", "how:ctor", "number", "long-text", "prior-trusted-render"),
+        required=("how:append", "how:extend", "how:insert", "how:list", "how:tfy", "how:ctor", "number", "long-text", "prior-trusted-render", "how:renamed"),
         rule="metachar slot not an only child",
         fuzz=60000,
     ),
